@@ -581,3 +581,8 @@ def run(ctx):
         ctx.notes.append("DIVERGENCE: %d trace(s) of the real Writer are not behaviours of Writer.tla" % len(divs))
         print("DIVERGENCE property=%s traces=%d first=%s" % (prop, len(divs), json.dumps(divs[0])[:400]), flush=True)
     return cov
+
+
+def replay(ctx, path):
+    from engines import replayer
+    return replayer.replay(ctx, path)
